@@ -317,10 +317,21 @@ where
     /// # Safety
     /// `entity_allocator` must contain entries for each of the entities stored in the archetypes.
     pub(crate) unsafe fn clear(&mut self, entity_allocator: &mut entity::Allocator<R>) {
+        let previously_free = entity_allocator.free.len();
         for archetype in self.iter_mut() {
             // SAFETY: The `entity_allocator` is guaranteed to have an entry for each entity stored
             // in `archetype`.
             unsafe { archetype.clear(entity_allocator) };
+        }
+        // The archetypes are visited in an order that depends on where their identifiers happen
+        // to be allocated. Order the newly freed slots, so that the identifiers handed out
+        // afterwards do not depend on it.
+        if let Some(newly_free) = entity_allocator
+            .free
+            .make_contiguous()
+            .get_mut(previously_free..)
+        {
+            newly_free.sort_unstable();
         }
     }
 
